@@ -119,10 +119,27 @@ func vtExitCS() {}
 //verif:stub github.com/martian-lang/martian/martian/util.LogInfo
 func vtLogInfo(component string, format string, v ...interface{}) {}
 
+var vtLastPartial *PartialVdrKillReport
+
 //verif:stub (*github.com/martian-lang/martian/martian/core.Metadata).Write
 func vtMetaWrite(self *Metadata, name MetadataFileName, object interface{}) error {
 	vtWrote = append(vtWrote, name)
+	if p, ok := object.(*PartialVdrKillReport); ok && name == PartialVdr {
+		// the file as the next reader finds it
+		c := *p
+		vtLastPartial = &c
+		self.contents[PartialVdr] = struct{}{}
+	}
 	return nil
+}
+
+//verif:stub (*github.com/martian-lang/martian/martian/core.Metadata).ReadInto
+func vtReadInto(self *Metadata, name MetadataFileName, target interface{}) error {
+	if p, ok := target.(*PartialVdrKillReport); ok && name == PartialVdr && vtLastPartial != nil {
+		*p = *vtLastPartial
+		return nil
+	}
+	return &os.PathError{Op: "open", Path: string(name), Err: os.ErrNotExist}
 }
 
 // vtJob creates the directory of one job: metadata file _log, files/out, and
@@ -259,4 +276,33 @@ func H_C14_cleanTemp(phase, k, nTmp int) {
 		_, ok := vtFS[p]
 		verifAssert(!ok, "C14: every path listed in the report no longer exists")
 	}
+}
+
+// H_C14_splitTempTwice(nTmp): the split's temporary directory (nTmp files of
+// arbitrary size) is reclaimed as soon as the split has completed - doChunks
+// calls cleanSplitTemp(nil) for a volatile stage - and doChunks runs a second
+// time for the fork (after a restart which reset its queued chunks, or a chunk
+// retry).
+//
+//	C14: the partial report on disk still accounts for what the first pass
+//	     removed ("the report's file count and byte total equal what was
+//	     actually removed", across a restart between partial and final cleanup).
+func H_C14_splitTempTwice(nTmp int) {
+	disableUniquification = false
+	top := vsTop()
+	top.rt.Config.VdrMode = VdrRolling
+	_, f := vsStageNode(top, "PROD", true)
+	vtFS, vtDirs, vtRemoved, vtWrote, vtLastPartial = map[string]int64{}, map[string]bool{}, nil, nil, nil
+	vtAdd(f.path, 0, true)
+	bytes, count := vtJob(f.split_metadata, true, nTmp)
+	f.cleanSplitTemp(nil)
+	verifCover("split temp cleaned, then doChunks ran again")
+	if vtLastPartial == nil {
+		verifAssert(false, "C14: the clean-up is recorded")
+		return
+	}
+	verifAssert(vtLastPartial.Size == uint64(bytes) && vtLastPartial.Count == count, "C14: the first pass records what it removed")
+	// the second pass of doChunks
+	f.cleanSplitTemp(nil)
+	verifAssert(vtLastPartial != nil && vtLastPartial.Size == uint64(bytes) && vtLastPartial.Count == count, "C14: a second pass over a split whose temporary files are already gone does not erase the record of what the first pass removed")
 }
